@@ -86,3 +86,8 @@ structure TcpF where
   dataofs : Nat
 
 end P0f
+
+namespace P0f
+/-- a Python int with WILDCARD (-1) back to the model's optional natural -/
+def intToOpt (x : Int) : Option Nat := if x < 0 then none else some x.toNat
+end P0f
